@@ -75,7 +75,7 @@ CHECKS["C14"] = ("Coq theorems for all candidate lists, all deterministic ECUs a
     "with caching no request is issued twice (cache-consistency and NoDup invariants by induction over parameters/patterns/variants). Model tied to VariantMatcher by correspondence on generated ECU-/base-variant databases x all response functions x cache on/off.",
     TB + "`matches` (decode + path walk) is a Section variable; the harness instantiates it with an independent reference for plain and structured values; float/bytes/DTC/field comparisons are not exercised.",
     "Rocq/Coq proof (loop invariants) + correspondence over all response functions", "DESIGN.md §3 C14")
-CHECKS["C18"] = ("Coq theorems for all layers: self comparison reports nothing; an added service is reported as new; a renamed service (same request prefix) as renamed; concrete single-edit examples; refutation 'deleting every service of a layer is not reported'. "
+CHECKS["C18"] = ("Coq theorems for all layers: self comparison reports nothing; an added service is reported as new; a renamed service (same request prefix) as renamed; a deleted service is reported as deleted (also from a layer left empty) and every reported deletion is real; concrete single-edit examples. "
     "Model of compare_diagnostic_layers' classification tied to the tool by correspondence on generated layers x every single edit of the property text; oracle: exactly that kind of change for exactly that service and the changed property listed; rows of print_dl_metrics.",
     TB + "PARTIAL: attribute-level parameter comparison (compare_parameters) and metrics are correspondence/oracle only; list/find/decode sub-commands not covered (their logic is C06's).",
     "Rocq/Coq proof (classification lemmas by induction over the service lists) + single-edit enumeration", "DESIGN.md §3 C18")
